@@ -92,6 +92,35 @@ theorem every_region_covered_repaired : EveryRegionCovered Flags.repaired := by
   simp only [inFamily, Bool.and_eq_true, List.all_eq_true] at hf
   exact fun m hm => (hf.2 m hm).1.1
 
+theorem family_names {inp : Inp} {t : Items} (hf : inFamily inp t = true) : ∀ m ∈ t.macros, m ≠ [] := by
+  simp only [inFamily, Bool.and_eq_true, List.all_eq_true] at hf
+  exact fun m hm => okName_ne_nil (hf.2 m hm).1.1
+
+/-- the proposed patch alone (`/verif/proposed/C12-else-stack.diff`): every region is covered in every family
+    tree whose `#if !defined` conditionals contain regions only (what remains outside is F16) -/
+theorem every_region_covered_fixElse (inp : Inp) (t : Items) (hf : inFamily inp t = true) (hl : ndLeaf t = true) :
+    ∀ r ∈ t.regions, ∃ c ∈ getConfigsWith { fixElse := true } inp t.flatten, live c t r = true :=
+  every_region_covered_of_safe _ inp t hf
+    (safeItems_fixElse (fl := { fixElse := true }) rfl t [] [] (family_names hf) hl (by decide))
+
+example : inFamily {} witnessF15 = true ∧ ndLeaf witnessF15 = true := by decide
+
+/-- a syntactic class inside `safe Flags.code`: `#else` of `#ifdef`/`#if` conditionals only at the top level,
+    `#if !defined` conditionals with regions only -/
+theorem every_region_covered_simple (inp : Inp) (t : Items) (hf : inFamily inp t = true)
+    (hl : ndLeaf t = true) (hs : simpleElse t = true) :
+    ∀ r ∈ t.regions, ∃ c ∈ getConfigs inp t.flatten, live c t r = true :=
+  every_region_covered_partial inp t hf (safeItems_simpleElse Flags.code t (family_names hf) hl hs)
+
+def exampleSimple : Items :=
+  .condElse .ifdef ['A']
+    (.cond .ifDefined ['B'] (.region 0 .done)
+      (.condElse .ifndef ['C'] (.region 1 .done) (.region 2 (.cond .ifdef ['D'] (.region 3 .done) .done)) .done))
+    (.cond .ifNotDefined ['E'] (.region 4 .done) .done)
+    (.region 5 .done)
+
+example : inFamily {} exampleSimple = true ∧ ndLeaf exampleSimple = true ∧ simpleElse exampleSimple = true := by decide
+
 /-! ### budget, -D, -U -/
 
 /-- within the budget every extracted configuration is analysed (no `-D`) -/
